@@ -662,7 +662,7 @@ class DiskShuffleLayer(Spec):
     (name, i); a barrier task depends on ALL of these; output j collects group P[j] from the store and depends on the
     barrier - so no output is read before every input partition has been written, and output j holds group P[j]."""
 
-    file, qualname, props = "dask_expr/_shuffle.py", "DiskShuffle._layer", ["C12", "C09", "C11"]
+    file, qualname, props = "dask_expr/_shuffle.py", "DiskShuffle._layer", ["C12", "C09", "C11", "C05"]  # C05: the barrier waits for EVERY writer - the only ordering the disk shuffle relies on is in the graph
     assumptions = [
         "uuid.uuid1().hex is a token no other name contains (A-names); partd_encode_dispatch / maybe_buffered_partd are opaque constructors",
         "toolz.merge(d1, ..., dk) is modelled as successive dict.update (later mappings win), its documented meaning",
@@ -737,6 +737,19 @@ class DiskShuffleLayer(Spec):
 
         def barrier(c, e, r):
             own, store, part, bar = names(c, e)
+            if not c.symbolic:
+                # concretely the clause is stated semantically: every write task is a (transitive) dependency of the barrier key
+                # inside the layer - a barrier built in stages is fine as long as it still waits for EVERY writer
+                from dask.core import get_dependencies
+
+                seen, todo = set(), [bar]
+                while todo:
+                    k = todo.pop()
+                    if k in seen or k not in r:
+                        continue
+                    seen.add(k)
+                    todo.extend(get_dependencies(r, k))
+                return all((part, i) in seen for i in range(e["n_in"]))
             return c.holds_at(r, bar, lambda v: len(v) == 2 and c.And(c.eq(v[0], c.fn("barrier")), c.eq(c.len(v[1]), e["n_in"]), c.forall(0, e["n_in"], lambda i: c.eq(c.at(v[1], i), (part, i)))))
 
         def store_defined(c, e, r):
@@ -770,6 +783,10 @@ class DiskShuffleLayer(Spec):
                 yield {"n_in": n_in, "n_out": n_out, "P": None}
                 for P in ([0], [n_out - 1], list(range(n_out))[::-1]):
                     yield {"n_in": n_in, "n_out": n_out, "P": P}
+        # the options a user can pass through shuffle(..., max_branch=k) reach this class as well: more inputs than the fan-in, not a multiple of it
+        for n_in in (3, 5, 7):
+            for mb in (2, 3):
+                yield {"n_in": n_in, "n_out": 2, "P": None, "options": {"max_branch": mb}}
 
     def concrete_env(self, inputs):
         return None
@@ -778,7 +795,7 @@ class DiskShuffleLayer(Spec):
         from dask_expr._shuffle import DiskShuffle
 
         fr = stub_frame(npartitions=inputs["n_in"])
-        obj = DiskShuffle(fr, "x", inputs["n_out"], False, {}, inputs["P"])
+        obj = DiskShuffle(fr, "x", inputs["n_out"], False, inputs.get("options", {}), inputs["P"])
         layer = obj._layer()
         tok = [k[0] for k in layer if len(k) == 1 and k[0].startswith("zpartd-")][0][len("zpartd-"):]
         return {"self": obj, "n_in": inputs["n_in"], "n_out": inputs["n_out"], "P": obj._partitions, "_tok": tok}, layer
